@@ -130,6 +130,18 @@ def run(ck):
         bases = base_files(rng)
         for fmt, kind, txt in bases:
             files.append(('valid:' + fmt, txt.encode('latin-1')))
+        # sequences whose residue count sits on the growth steps of the per-sequence buffers (512, 1024, ...): one byte
+        # past a heap block is invisible without the sanitizer
+        for L in ([511, 512, 513, 1024] if quick else [511, 512, 513, 1023, 1024, 1025, 1536, 2048]):
+            for kind2 in ('dna', 'protein'):
+                al = gen.DNA if kind2 == 'dna' else gen.PROT
+                sq = [gen.rand_seq(rng, al, L) + ('' if kind2 == 'dna' else '')] + [gen.rand_seq(rng, al, rng.choice([L, L - 1, 40])) for _ in range(2)]
+                if kind2 == 'protein': sq = [x[:-3] + 'WKW' for x in sq]
+                nm3 = ['len%d_%d' % (L, i) for i in range(3)]
+                rows3 = gapify(rng, sq, 0.05)
+                files.append(('valid:boundary-fasta', gen.fasta(nm3, sq, rng.choice([60, 100000])).encode('latin-1')))
+                files.append(('valid:boundary-clustal', render_clu(nm3, rows3, 60, 0).encode('latin-1')))
+                files.append(('valid:boundary-msf', render_msf(nm3, rows3, 50, kind2 == 'protein').encode('latin-1')))
         nmut = 700 if quick else 8000
         for k in range(nmut):
             fmt, kind, txt = rng.choice(bases)
